@@ -1,7 +1,7 @@
 (* C16 — transaction weight follows BIP141 for every valid transaction.
    Agreement with rust-bitcoin's weight() is checked differentially on every run. *)
 From BS Require Import Impl.Visit Ref.MetaDefs Proofs.ImplRefLeaf Proofs.ImplRefTx Proofs.Transfer Proofs.Entries
-  Proofs.SpecLemmas Proofs.RefSpec Proofs.SpecTransfer Proofs.TxSpec Proofs.ObjSpec.
+  Proofs.SpecLemmas Proofs.RefSpec Proofs.SpecTransfer Proofs.TxSpec Proofs.ObjSpec Proofs.Examples.
 Open Scope N_scope.
 
 (* weight() of every successfully parsed transaction = 3 * stripped size + total size, without
@@ -30,3 +30,11 @@ Proof.
   change (tx_weight (mk_tx (sl p (enc_tx t)) t (rev (trav_tx p t) ++ h)) = Ok (weight_spec t)).
   rewrite mk_tx_obj. apply tx_weight_spec; [exact Hwf|exact (InLen_prefix _ _ HD)].
 Qed.
+
+(* non-vacuity: legacy, segwit and zero-input segwit examples; the model computes the specified weights *)
+Example C16_example : wf_tx ex_tx_legacy /\ wf_tx ex_tx_segwit /\ wf_tx ex_tx_noinputs /\
+  map (fun t => match visit_transaction never (sl 0 (enc_tx t)) [] with
+                | (Ok pr, _) => match tx_weight (parsed pr) with Ok w => Some w | _ => None end
+                | _ => None end) [ex_tx_legacy; ex_tx_segwit; ex_tx_noinputs]
+  = map (fun t => Some (weight_spec t)) [ex_tx_legacy; ex_tx_segwit; ex_tx_noinputs].
+Proof. split; [exact ex_tx_legacy_wf|split; [exact ex_tx_segwit_wf|split; [exact ex_tx_noinputs_wf|exact ex_weights]]]. Qed.
